@@ -18,12 +18,86 @@ def _with_rule(task):
     return t
 
 
+# ---- part 2: whatever fits on one line is printed on one line (pformat level)
+
+from crosshair.tracers import NoTracing
+from vf import pfbase, gen_values
+from vf.pfbase import SLine
+
+
+class OneLineAtoms(pfbase.AtomCase):
+    """Skeleton with atoms of symbolic width; L = symbolic width of the
+    one-line form; for every width >= L and ribbon_width >= L the output is
+    that single line."""
+
+    def run(self, texts, w, rw):
+        if self.native:
+            texts = ['pqrst'[k] + '_' * (len(t) - 1) for k, t in enumerate(texts)]
+        self.bind(texts)
+        ref = pfbase.sdocs(self.value, 10 ** 6, 10 ** 6, True, traced_printers=True)
+        L = 0
+        for x in ref:
+            if isinstance(x, SLine):
+                return True          # the printers force a break: excluded by the statement
+            if isinstance(x, str):
+                L = L + len(x)
+        if not (w >= L and rw >= L):
+            return True              # acts as a precondition (L is symbolic)
+        out = pfbase.sdocs(self.value, w, rw, self.native, traced_printers=True)
+        describe = lambda: 'skeleton=%s L=%r w=%r rw=%r\nstream=%r' % (self.src, L, w, rw, out)
+        for x in out:
+            if isinstance(x, SLine):
+                return self.fail('C06:fits-on-one-line-but-broken', describe)
+        with NoTracing():
+            a = [x for x in out if type(x) is str or id(x) in [id(t) for t in texts]]
+            b = [x for x in ref if type(x) is str or id(x) in [id(t) for t in texts]]
+            if len(a) != len(b) or any(p is not q and p != q for p, q in zip(a, b)):
+                return self.fail('C06:one-line-output-differs-from-unbounded-rendering', describe)
+        return True
+
+
+class OneLineValue(pfbase.CfgCase):
+    """Concrete value; L = len(one-line form); every width and ribbon >= L
+    (both symbolic, independent) gives exactly that line."""
+
+    def __init__(self, params):
+        super().__init__(params)
+        self.src = params['value']
+        self.value = gen_values.make_value(self.src)
+        self.ref = pfbase.native_pformat(self.value, 10 ** 6, 10 ** 6)
+        self.L = len(self.ref)
+        self.delta = params.get('delta', 0)
+
+    def pre(self, w, rw):
+        if '\n' in self.ref:
+            return w == 1 and rw == 1
+        return (self.L + self.delta <= w and w <= max(pfbase.MAXW, self.L + 2) and
+                self.L + self.delta <= rw and rw <= max(pfbase.MAXW, self.L + 2))
+
+    def run(self, w, rw):
+        if '\n' in self.ref:
+            return True
+        if self.native:
+            text = pfbase.native_pformat(self.value, w, rw)
+        else:
+            text = pfbase.stream_text(pfbase.sdocs(self.value, w, rw, False))
+        if text != self.ref:
+            return self.fail('C06:fits-on-one-line-but-broken',
+                             lambda: 'value=%s L=%d w=%r rw=%r\noutput:\n%s' % (self.src, self.L, w, rw, text))
+        return True
+
+
+FAMILIES = dict(c05.FAMILIES)
+FAMILIES['oneline'] = pfbase.atoms_family('oneline', OneLineAtoms)
+FAMILIES['oneline-value'] = pfbase.cfg_family('oneline-value', OneLineValue)
+
+
 def run_case(task):
-    return base.generic_run_case(c05.FAMILIES, _with_rule(task))
+    return base.generic_run_case(FAMILIES, _with_rule(task))
 
 
 def replay_case(task):
-    return base.generic_replay_case(c05.FAMILIES, _with_rule(task))
+    return base.generic_replay_case(FAMILIES, _with_rule(task))
 
 
 def lemma_task(task):
@@ -36,6 +110,17 @@ def cases(tier, seed):
         c = dict(c)
         c['params'] = dict(c['params'], rule='C06')
         out.append(c)
+    # part 2
+    sk = gen_values.ATOM_SKELETONS
+    for j, s in enumerate(sk if tier == 'thorough' else sk[:8]):
+        out.append({'name': 'oneline:%s' % s, 'family': 'oneline',
+                    'params': {'skeleton': s, 'slice': 'mixed'},
+                    'budget': 100.0 if tier == 'quick' else 400.0, 'path_timeout': 30.0, 'twin': j == 0})
+    corpus = [c for c in gen_values.corpus('quick', seed) if len(c[1]) < 70]
+    step = 2 if tier == 'quick' else 1
+    for name, src in corpus[::step]:
+        out.append({'name': 'oneline-value:%s' % name, 'family': 'oneline-value',
+                    'params': {'value': src}, 'budget': 60.0})
     return out
 
 
